@@ -46,6 +46,11 @@ def streams(ctx):
             frames.append(F(8, b"\x03\xe8bye"))
         rx.randomize_encoding(rnd, frames, 0.3, 0.2)
         out.append(frames)
+    # frames on both sides of the 16-bit / 64-bit length forms, each followed by another frame (schedules() interrupts them
+    # inside the header, the extended length and the payload)
+    for ln in (65535, 65536, 70000):
+        out.append([F(2, rx.payload(rnd, ln, "bin")), F(1, b"after")])
+    out.append([F(1, rx.payload(rnd, 40000, "utf8"), fin=0), F(9, b"p"), F(0, rx.payload(rnd, 66000, "utf8")), F(2, b"after")])
     return out
 
 
@@ -73,6 +78,13 @@ def schedules(ctx, stream, rnd):
                 if (p1 + p2) % 3:
                     continue
                 scheds.append([("chunk", stream[:p1]), ("timeout",), ("chunk", stream[p1:p2]), ("timeout",), ("chunk", stream[p2:])])
+    if n > 60000:
+        for pos in (1, 2, 5, 9, 10, 11, 1000, 16384 + 10, 40000, n // 2, 65536, 65540, n - 7, n - 1):
+            if 0 < pos < n:
+                scheds.append([("chunk", stream[:pos]), ("timeout",), ("chunk", stream[pos:])])
+        for p1, p2 in ((3, 30000), (20000, 66000), (100, 65545)):
+            if p2 < n:
+                scheds.append([("chunk", stream[:p1]), ("timeout",), ("chunk", stream[p1:p2]), ("timeout",), ("timeout",), ("chunk", stream[p2:])])
     # random partitions with random timeouts
     k = 30 if ctx.thorough() else 8
     for _ in range(k):
